@@ -18,12 +18,22 @@ Fixpoint take_until (c : cursor) (offs : list nat) : list nat * bool :=
 
 Definition lastn {A} (k : nat) (l : list A) := skipn (length l - k) l.
 
+(* "before" designates the "after" element or one ahead of it: nothing lies between the two (repaired NameCon; the
+   pinned one ignored "before" in that case and returned what follows "after") *)
+Definition empty_window (n : nat) (i : input) : bool :=
+  match i_after i, i_before i with
+  | Some ca, Some cb => match find_after ca (seq 0 n) with Some o => existsb (cur_eqb cb) (seq 0 (S o)) | None => false end
+  | _, _ => false
+  end.
+
 Definition paginate (n : nat) (i : input) : result :=
   let src := seq 0 n in
-  let '(src1, hp) := match i_after i with
+  let '(src0, hp) := match i_after i with
                      | Some c => match find_after c src with Some o => (skipn (S o) src, true) | None => (src, false) end
                      | None => (src, false) end in
-  let '(e1, hn) := match i_before i with Some c => take_until c src1 | None => (src1, false) end in
+  let src1 := if empty_window n i then [] else src0 in
+  let '(e1, hn0) := match i_before i with Some c => take_until c src1 | None => (src1, false) end in
+  let hn := hn0 || empty_window n i in
   match (match i_first i with
          | Some f => if (f <? 0)%Z then None else
                      if Nat.ltb (Z.to_nat f) (length e1) then Some (firstn (Z.to_nat f) e1, true) else Some (e1, hn)
@@ -38,6 +48,11 @@ Definition paginate (n : nat) (i : input) : result :=
     | Some (e3, hp3) => Ok {| p_items := e3; p_hasnext := hn2; p_hasprev := hp3; p_total := n |}
     end
   end.
+
+Lemma ew_no_before n a f l : empty_window n {| i_after := a; i_before := None; i_first := f; i_last := l |} = false.
+Proof. unfold empty_window; cbn. destruct a; reflexivity. Qed.
+Lemma ew_no_after n b f l : empty_window n {| i_after := None; i_before := b; i_first := f; i_last := l |} = false.
+Proof. reflexivity. Qed.
 
 (* forward walk with page size k>0 *)
 Definition fwd (n k : nat) (after : option nat) : result :=
@@ -58,7 +73,7 @@ Theorem fwd_page n k o : 0 < k -> o <= n ->
   fwd n k (match o with 0 => None | S o' => Some o' end) =
   Ok {| p_items := seq o (Nat.min k (n - o)); p_hasnext := Nat.ltb k (n - o); p_hasprev := negb (Nat.eqb o 0); p_total := n |}.
 Proof.
-  intros Hk Ho. unfold fwd, paginate. cbn [i_after i_before i_first i_last option_map].
+  intros Hk Ho. unfold fwd, paginate. rewrite !ew_no_before. cbn [i_after i_before i_first i_last option_map orb].
   assert (Hz : (Z.of_nat k <? 0)%Z = false) by (apply Z.ltb_ge; lia). 
   destruct o as [|o']; cbn [option_map].
   - rewrite Hz, Nat2Z.id, seq_length, Nat.sub_0_r. destruct (Nat.ltb_spec k n).
